@@ -13,6 +13,16 @@ def progs(ctx):
     return SC.default_programs(ctx, ref)
 
 
+def chain(ctx, recs, failures):
+    """text -> graph entirely inside the Lean model, against the real pipeline"""
+    from . import semapipe as SP
+    if not ctx.lake_ok:
+        return
+    q = ctx.tier == "quick"
+    texts = [r["text"] for r in recs][: (3000 if q else 40000)]
+    ctx.coverage["whole_pipeline_in_model"] = dict(SP.run_chain(ctx, texts))
+
+
 def check(ctx):
-    return SC.run(ctx, "C06", ["Oq3.Props.C06"], [OC], progs(ctx),
+    return SC.run(ctx, "C06", ["Oq3.Props.C06"], [OC], progs(ctx), post=chain, rule=
                   "generated programs (gen_prog: all statement arms, faults) + reference-language programs (gen_ref: all statement kinds nested to depth 4 (thorough: 5), block and single-statement bodies in every combination, every operator); oracle: the skeleton of the graph predicted from the typed-AST dump alone (statement kinds in source order, blocks, roles, operand/argument/qubit/index/modifier order, operator identity, literal class and value, referenced names, annotations on the FOLLOWING statement, pragma text verbatim) compared node by node with the real graph")
